@@ -127,4 +127,44 @@ theorem src_inside (b : Box K) (lam : Lams K) (p : V3 K) (incl : Bool) :
   simp only [Generated.BoxSource.planes, Lams.toList, List.zip_cons_cons, List.zip_nil_right, List.all_cons,
     List.all_nil, Bool.and_true, inside, below, Generated.BoxSource.planeBelow, Bool.and_assoc]
 
+/-! ### `Box.set` keyword dispatch, signatures, `__init__`, family constructors -/
+
+/-- which parameter set a branch of the source's `if / elif` chain stands for. -/
+def famOfAction : String → Option SetFamily
+  | "inline:vects" => some .vects
+  | "set_vectors" => some .vectors
+  | "set_lengths" => some .lengths
+  | "set_hi_los" => some .hilos
+  | "set_abc" => some .abc
+  | "inline:origin" => some .origin
+  | _ => none
+
+/-- `Box.set` is the chain `setChain` of the model (same keys, same order, each branch handing *all* keywords to
+    its `set_*` method resp. popping `vects`/`origin` — default origin `[0.0, 0.0, 0.0]` — and asserting that
+    nothing is left), preceded by the unit-cell branch and ending in `raise TypeError`; the `set_*` methods have
+    the parameters of `sigVectors … sigHiLos` in that order (so a positional call means what the documentation
+    says) with the documented defaults; `__init__` allocates fresh state per instance; the seven family
+    constructors pass the documented lengths and angles. -/
+theorem src_set_dispatch :
+    Generated.BoxSource.setUnitBranch = true ∧
+    Generated.BoxSource.setChainSrc.map (fun p => (p.1, famOfAction p.2)) = setChain.map (fun p => (p.1, some p.2)) ∧
+    Generated.BoxSource.setElseRaisesTypeError = true ∧
+    Generated.BoxSource.signatures =
+      [("set_vectors", sigVectors), ("set_abc", sigAbc), ("set_lengths", sigLengths), ("set_hi_los", sigHiLos)] ∧
+    Generated.BoxSource.defaults =
+      [("set_vectors", [("origin", "None")]),
+       ("set_abc", [("alpha", "90.0"), ("beta", "90.0"), ("gamma", "90.0"), ("origin", "None")]),
+       ("set_lengths", [("xy", "0.0"), ("xz", "0.0"), ("yz", "0.0"), ("origin", "None")]),
+       ("set_hi_los", [("xy", "0.0"), ("xz", "0.0"), ("yz", "0.0")])] ∧
+    Generated.BoxSource.initFreshState = true ∧
+    Generated.BoxSource.familyCalls =
+      [("cubic", "a", "cls(a=a, b=a, c=a, alpha=90, beta=90, gamma=90)"),
+       ("hexagonal", "a, c", "cls(a=a, b=a, c=c, alpha=90, beta=90, gamma=120)"),
+       ("tetragonal", "a, c", "cls(a=a, b=a, c=c, alpha=90, beta=90, gamma=90)"),
+       ("trigonal", "a, alpha", "cls(a=a, b=a, c=a, alpha=alpha, beta=alpha, gamma=alpha)"),
+       ("orthorhombic", "a, b, c", "cls(a=a, b=b, c=c, alpha=90, beta=90, gamma=90)"),
+       ("monoclinic", "a, b, c, beta", "cls(a=a, b=b, c=c, alpha=90, beta=beta, gamma=90)"),
+       ("triclinic", "a, b, c, alpha, beta, gamma", "cls(a=a, b=b, c=c, alpha=alpha, beta=beta, gamma=gamma)")] := by
+  refine ⟨rfl, by decide, rfl, by decide, by decide, rfl, by decide⟩
+
 end Atomman.C01
